@@ -867,4 +867,123 @@ Proof.
   destruct Ha as [Ha _]. unfold colfac. destruct (Nat.eqb ma m0); field; auto.
 Qed.
 
+
+(* ---- assembled level: positive rescaling of any columns of any shells leaves the overlap
+        matrices unchanged (base_two_symm / base_two_asymm with Overlap) ---- *)
+Lemma mk_nth_id {A} (l : list A) d : mk (length l) (fun j => nth j l d) = l.
+Proof.
+  apply (nth_ext _ _ d d); [apply mk_length|]. intros n Hn. rewrite mk_length in Hn. now rewrite nth_mk by exact Hn.
+Qed.
+
+Lemma scale_col_rows_one m0 C : scale_col_rows m0 1 C = C.
+Proof.
+  unfold scale_col_rows. induction C as [|r C IH]; cbn [map]; [reflexivity|]. rewrite IH. f_equal.
+  transitivity (mk (length r) (fun j => nth j r 0)); [|apply mk_nth_id].
+  apply mk_ext. intros j _. destruct (Nat.eqb j m0); [ring|reflexivity].
+Qed.
+
+Lemma scale_col_one s m0 : scale_col s m0 1 = s.
+Proof. unfold scale_col, set_coeffs. rewrite scale_col_rows_one. now destruct s. Qed.
+
+Definition pos_rescaled (s s' : shell F) : Prop :=
+  exists m0 k, s' = scale_col s m0 k /\ scale_hyps s m0 k k.
+
+Lemma pos_rescaled_refl s : pos_rescaled s s.
+Proof.
+  exists (nseg s), 1. split; [symmetry; apply scale_col_one|].
+  split; [exact (F_1_neq_0 Kf)|]. split; intros H; lia.
+Qed.
+
+Lemma pblock_overlap_pos s1 s1' s2 s2' : (forall x, fapx K x = x) ->
+  pos_rescaled s1 s1' -> pos_rescaled s2 s2' ->
+  pblock K 0 (fadd K) (fmul K) (overlap_block K) (prep K s1') (prep K s2')
+  = pblock K 0 (fadd K) (fmul K) (overlap_block K) (prep K s1) (prep K s2).
+Proof.
+  intros Hapx [m1 [k1 [-> H1]]] [m2 [k2 [-> H2]]]. unfold pblock, prep. cbn [p_shell p_norm p_T].
+  change (shell_transform K (scale_col ?s ?m ?k)) with (shell_transform K s).
+  change (s_sph (scale_col ?s ?m ?k)) with (s_sph s).
+  unfold shell_block. cbv zeta. rewrite !overlap_block_kernel.
+  change (ov_kern (scale_col s1 m1 k1) (scale_col s2 m2 k2)) with (ov_kern s1 s2).
+  change (normalise K (fmul K) (norm_cont K ?a) (norm_cont K ?b) (kblock ?g ?a ?b)) with (nblock g a b).
+  now rewrite (nblock_scale_col_pos (ov_kern s1 s2) s1 s2 m1 k1 m2 k2 Hapx H1 H2).
+Qed.
+
+Lemma Forall2_nth' {A B} (R : A -> B -> Prop) l l' da db i :
+  Forall2 R l l' -> i < length l -> R (nth i l da) (nth i l' db).
+Proof.
+  intros H. revert i. induction H as [|x y l l' Hxy _ IH]; intros [|i] Hi; cbn in *; try lia; [exact Hxy|].
+  apply IH. lia.
+Qed.
+
+Lemma Forall2_length' {A B} (R : A -> B -> Prop) l l' : Forall2 R l l' -> length l' = length l.
+Proof. induction 1; cbn; congruence. Qed.
+
+Section AsmExt.
+Context {A : Type} (azero : A) (aadd : A -> A -> A) (ascale : F -> A -> A).
+Variable blockf : shell F -> shell F -> list (list (list (list A))).
+Variable R : shell F -> shell F -> Prop.
+Hypothesis HR : forall s1 s1' s2 s2', R s1 s1' -> R s2 s2' ->
+  pblock K azero aadd ascale blockf (prep K s1') (prep K s2')
+  = pblock K azero aadd ascale blockf (prep K s1) (prep K s2).
+
+Lemma nth_map_prep (b : list (shell F)) i d : i < length b ->
+  nth i (map (prep K) b) (dummy_p K) = prep K (nth i b d).
+Proof.
+  intros Hi. rewrite (nth_indep _ (dummy_p K) (prep K d)) by (now rewrite map_length). apply map_nth.
+Qed.
+
+Lemma two_symm_integral_rel b b' T : Forall2 R b b' ->
+  two_symm_integral K azero aadd ascale blockf b' T = two_symm_integral K azero aadd ascale blockf b T.
+Proof.
+  intros H. rewrite !two_symm_integral_unfold. cbv zeta. rewrite !map_length, (Forall2_length' R b b' H).
+  set (d := mkShell F 0 0 0 0 [] [] false [] []).
+  rewrite (two_symm_blocks_ext_le azero (length b) _
+            (fun i j => pblock K azero aadd ascale blockf (nth i (map (prep K) b) (dummy_p K))
+                               (nth j (map (prep K) b) (dummy_p K)))); [reflexivity|].
+  intros i j Hi Hj _.
+  rewrite !(nth_map_prep b' _ d) by (rewrite (Forall2_length' R b b' H); assumption).
+  rewrite !(nth_map_prep b _ d) by assumption.
+  apply HR; apply Forall2_nth'; assumption.
+Qed.
+
+Lemma two_asymm_integral_rel b1 b1' b2 b2' T1 T2 : Forall2 R b1 b1' -> Forall2 R b2 b2' ->
+  two_asymm_integral K azero aadd ascale blockf b1' b2' T1 T2
+  = two_asymm_integral K azero aadd ascale blockf b1 b2 T1 T2.
+Proof.
+  intros H1 H2. unfold two_asymm_integral. cbv zeta.
+  rewrite !map_length, (Forall2_length' R b1 b1' H1), (Forall2_length' R b2 b2' H2).
+  set (d := mkShell F 0 0 0 0 [] [] false [] []).
+  assert (E : two_asymm_blocks (length b1) (length b2)
+                (fun i j => pblock K azero aadd ascale blockf (nth i (map (prep K) b1') (dummy_p K))
+                                   (nth j (map (prep K) b2') (dummy_p K)))
+              = two_asymm_blocks (length b1) (length b2)
+                (fun i j => pblock K azero aadd ascale blockf (nth i (map (prep K) b1) (dummy_p K))
+                                   (nth j (map (prep K) b2) (dummy_p K)))).
+  { unfold two_asymm_blocks. f_equal. apply mk_ext. intros i Hi. f_equal. apply mk_ext. intros j Hj.
+    rewrite (nth_map_prep b1' _ d) by (rewrite (Forall2_length' R b1 b1' H1); assumption).
+    rewrite (nth_map_prep b2' _ d) by (rewrite (Forall2_length' R b2 b2' H2); assumption).
+    rewrite (nth_map_prep b1 _ d), (nth_map_prep b2 _ d) by assumption.
+    apply HR; apply Forall2_nth'; assumption. }
+  now rewrite E.
+Qed.
+End AsmExt.
+
+Theorem overlap_integral_scale_pos basis basis' T : (forall x, fapx K x = x) ->
+  Forall2 pos_rescaled basis basis' ->
+  overlap_integral K basis' T = overlap_integral K basis T.
+Proof.
+  intros Hapx H. unfold overlap_integral.
+  apply (two_symm_integral_rel 0 (fadd K) (fmul K) (overlap_block K) pos_rescaled); [|exact H].
+  intros. now apply pblock_overlap_pos.
+Qed.
+
+Theorem overlap_integral_asymm_scale_pos b1 b1' b2 b2' T1 T2 : (forall x, fapx K x = x) ->
+  Forall2 pos_rescaled b1 b1' -> Forall2 pos_rescaled b2 b2' ->
+  overlap_integral_asymm K b1' b2' T1 T2 = overlap_integral_asymm K b1 b2 T1 T2.
+Proof.
+  intros Hapx H1 H2. unfold overlap_integral_asymm.
+  apply (two_asymm_integral_rel 0 (fadd K) (fmul K) (overlap_block K) pos_rescaled); [|exact H1|exact H2].
+  intros. now apply pblock_overlap_pos.
+Qed.
+
 End P.
